@@ -78,6 +78,12 @@ def execOp {G} (w : Stage → G → G) (h : Heap G) : Op → Heap G
 def exec {G} (w : Stage → G → G) (h : Heap G) (ops : List Op) (k : Nat) : Heap G :=
   (ops.take k).foldl (execOp w) h
 
+/-- what the pipeline makes of the caller's data graph before validating: mix-in, then pre-inference, then rules -/
+def expand {G} (c : Cfg) (w : Stage → G → G) (g : G) : G :=
+  let g1 := if c.hasOnt then w .inoculate g else g
+  let g2 := if c.inference then w .infer g1 else g1
+  if (c.api = .rules || c.advanced) && c.hasRules then w .rules g2 else g2
+
 def Op.writesCaller : Op → Bool
   | .write _ .data => true
   | .write _ .ont => true
